@@ -442,6 +442,25 @@ def handle (d : DSt) (line : String) : DSt × String :=
         ({ d with st := s2, ids := d.ids ++ [(id, held, fl == "onstop")] },
          s!"spawn {if held then "ok" else "noentry"} cnt={cntStr s2}")
     | _, _, _ => (d, "bad-op")
+  | ["prespawn", id, kind, outs, whr] =>
+    -- a worker of the subject module launched before the module is started: right after registration (`reg`) or from
+    -- inside its prep routine (`prep`); the managed execution is the same (`step … (.spawn …)`)
+    match kindOf kind, outcomesOf outs, d.mods.find? (·.name == "A") with
+    | some k, some os, some m =>
+      let bad := d.started || d.apiMode || (findIdx d.ids id).isSome
+        || !(k == .svc || k == .startWorker || k == .runWorker) || !(whr == "reg" || whr == "prep")
+        || (whr == "prep" && m.prep.isNone)
+      if bad then (d, "bad-op") else
+      let i := d.st.items.length
+      match step d.st (.spawn { kind := k, outs := os }) with
+      | none => (d, "bad-op")
+      | some s1 =>
+        let s2 := runHeld 16 s1 i
+        let held := match s2.items[i]? with
+          | some it => it.inFn
+          | none => false
+        ({ d with st := s2, ids := d.ids ++ [(id, held, false)] }, s!"prespawn {if held then "ok" else "noentry"}")
+    | _, _, _ => (d, "bad-op")
   | ["requeue", id, kind, outs] =>
     match findIdx d.ids id, kindOf kind, outcomesOf outs with
     | some i, some .task, some os =>
